@@ -208,10 +208,10 @@ def secp_part(rec, quick, do_exh):
                 continue
             s.P, s.N, s.A, s.B, s.Gx, s.Gy, s.G = p, n, A_, B_, g[0][0], g[1][0], (g[0][0], g[1][0])
             smon.set_ctx(smon.Ctx(p, A_, B_, n, g))
-            orig_double = getattr(s.jacobian_double, "__pv_original__", s.jacobian_double)
-            eff = smon.jac_aff(orig_double((g[0][0], g[1][0], 1))) == smon.CTX.E.add(g, g)
-            if not eff:
+            if not smon.substitution_effective(s, smon.CTX):
                 rec.unavailable.append("W4: rebinding secp256k1 constants had no effect (p=%d A=%d)" % (p, A_))
+                for c_ in ("secp:A!=0", "secp:exhaustive"):
+                    rec.waive(c_, "the module does not follow its constants when they are rebound")
                 continue
             trip = [(x, y, z) for x in range(p) for y in range(p) for z in range(p) if not (z == 0 and y != 0)]
             if p <= (11 if quick else 23):
